@@ -273,6 +273,7 @@ partial def loop (h : IO.FS.Stream) (s : DS) : IO Unit := do
     let badUrls := hexList ((field rest "badurl").getD "")
     let badProtos := hexList ((field rest "badproto").getD "")
     let g : Cfg := { isClient := false, maxBody := 0, urlOk := fun u => !badUrls.contains u, protoOk := fun u => !badProtos.contains u }
+    let cuts := if cuts.endsWith "!" then cuts.dropRight 1 else cuts   -- "!": the client closes at once
     let cutl := if cuts == "whole" then [] else (cuts.splitOn ",").map String.toNat!
     IO.println (engineCase g s.emode id stream cutl)
     loop h s
